@@ -60,6 +60,11 @@ def run(tier, replay):
     terms = [case_term(r["case"]) for r in rows]
     model = vlib.coq_eval(PROP, "From GW Require Import Select.", "run_case", terms, shard=700)
 
+    # late-lock level: the same cases against a fee fixed earlier
+    rows3 = [r for r in rows if r.get("l3") is not None]
+    model3 = vlib.coq_eval(PROP + "_fixed", "From GW Require Import Select.", "run_case_fixed",
+                           ["(%s, %s)" % (case_term(r["case"]), vlib.cN(r["fixed"])) for r in rows3], shard=700) if rows3 else []
+
     kinds = collections.Counter()
     distinct_ok = set()
     divergences = []
@@ -79,6 +84,12 @@ def run(tier, replay):
         if r["oracle"]:
             oracle_fail.append({"case": r["case"], "impl": r["l1"], "impl_build_send_tx": r.get("l2"),
                                 "failures": r["oracle"]})
+
+    for r, m in zip(rows3, model3):
+        if [int(x) for x in r["l3"]] != m:
+            divergences.append({"case": r["case"], "fixed_fee": r["fixed"], "impl": r["l3"], "model": [str(x) for x in m],
+                                "level": "build_send_tx with a fixed fee (late lock)"})
+        kinds["fixed:" + {0: "ok", 1: "err", 2: "panic"}[int(r["l3"][0])]] += 1
 
     for f in oracle_fail[:3]:
         V.violation({"property": PROP, "kind": "oracle", "what": f["failures"], "case": f["case"],
@@ -106,6 +117,7 @@ def run(tier, replay):
         "result_kinds": dict(kinds),
         "corpus_cases": n_corpus,
         "build_send_tx_level_cases": sum(1 for r in rows if r.get("l2") is not None),
+        "fixed_fee_level_cases": len(rows3),
         "divergences": len(divergences),
         "oracle_failures": len(oracle_fail),
     })
